@@ -119,6 +119,7 @@ PROPS = {
         covered=['location_from_span: line = start line, column = start column + 1 (1-based), char offset/length from the marks, byte offset/length when both byte marks exist and fit, else (0,0); Span::byte_offset/byte_len; Locations::same',
                  'Ev::location, KeyNode::location; ReplayEvents::reference_location = override, else current event, else last; last_location',
                  'Error::from_scan_error: a scanner error is located at the scanner\'s own mark (line, column + 1, character offset, length 1, no byte information), whatever kind of error it becomes',
+                 'merge sequences (`<<: [a, b]`), both expansion functions: the use site handed on for an element is read while that element is still in front of the cursor (the alias token for `*m`, the node itself for an inline mapping)',
                  'span-carrying values (src/de/spanned_deser.rs): deserialize_yaml_spanned records, before the node is consumed, the use site (the alias token while an alias is replayed, else the node) as `referenced` and the node as `defined`; the synthetic struct views hand out exactly the fields value / referenced / defined, line / column / span, offset / len / byte_info, each under its own name and with its own number, and the byte offset before the byte length',
                  'the Events trait contract for reference_location: after a successful peek it is the alias token while an alias is being replayed, else the location of the peeked event (ReplayEvents and LiveEvents both proved against it); SA::next_element_seed, MA::next_value_seed and VA::newtype_variant_seed hand exactly that use site, and the node\'s own location as definition site, to the seed'],
         not_covered=['that saphyr-parser marks agree with each other and with the text; serde static-error fallback location (thread-local); that the derived Deserialize of Spanned / Location / Span puts each named field into the field of that name (serde-generated)'],
@@ -126,6 +127,7 @@ PROPS = {
     ),
     'C02': dict(
         covered=[
+            'alias arm of next_impl: an alias is refused as recursive (or answered with the placeholder of a recursive anchor in progress) only while a recording frame of its own anchor is still open; an alias to an anchor that was finished inside a still-open anchored container is replayed',
             'LiveEvents::record: an event is appended to every open recording frame (all but a freshly seeded one), nothing else changes',
             'bump_depth_on_start / bump_depth_on_end: depth bookkeeping; exactly the frames whose depth reaches 0 (only at the top) are finalised and stored under their anchor id with their recorded buffer, every other anchor slot is untouched',
             'ensure_anchor_capacity never loses a recorded anchor; reset_document_state clears every anchor slot',
@@ -169,6 +171,7 @@ PROPS = {
             'ring reader window (src/ring_reader.rs is_utf8_continuation, utf8_expected_len, trim_incomplete_utf8_tail, trim_to_utf8_boundaries_with_line): exactly the leading continuation bytes are dropped (offset advanced by their number, line number unchanged since a continuation byte is never a line feed), only an incomplete last code point is dropped at the end, what remains is a sub-window of the input that neither starts with a continuation byte nor stops inside a code point; total for every byte string',
             'the recent-bytes window itself (unit ring): FixedRingBuffer push / pop / iterate against "the retained bytes, oldest first"; after any sequence of reads and read-aheads the window is the last RING_BUFFER_SIZE bytes read from the source, its first line number has advanced by exactly the lines that ended in front of it - a line ends at LF or at a CR not followed by LF, as the scanner and Location::line count them -, its offset by exactly the bytes that left it, and it ends where reading stopped; get_recent returns a piece of that window whose start line is the line of its first byte and whose offsets bracket it',
             'from_reader_with_options feeds the recent-bytes window with the DECODED text that locations refer to (statement fragment from_reader_with_options#ring: the decoder is put in front of the ring; F30), against an assumed one-line contract of the encoding_rs_io builder and of SharedRingReader / SharedRingReaderHandle (what the ring holds is what its inner reader delivers: proved for RingReader in unit ring)',
+            'crop_window_text as a whole against the sentence of the property (harness-only item, bounded, run in every check, NOT a proof): over 262 848 windows of one or two lines (LF and CR LF, multi-byte characters, every column, radius 0 to 3) every line is the column window [column - radius, column + radius] of the input line with an ellipsis on each clipped side, line ends are LF, and the marker starts at the character of the reported column',
             'the miette adapter (feature miette, statement fragment of to_miette_report_with_formatter): the source handed to miette is the text without a leading byte order mark, i.e. the text every Location offset refers to (F31); crop_window_text: the marker span it rebases onto the horizontally cropped text still starts at the character of the reported column (conditional in-body obligation; the premise - the span handed in starts at the reported column of that line - is what the #marker fragments prove)',
             'crop_source_window splits lines at LF only in text without a lone CR (F29): has_lone_cr / lone_cr_to_lf are assumed there and checked on their real text by a bounded-only harness in every run (all strings up to 8 characters over a five-symbol alphabet) - bounded, not proved',
             'line_col_to_byte_offset_with_starts: the offset is on a char boundary inside the reported line and is exactly (column - 1) characters after that line\'s start; next_char_boundary: the end of the one-character marker; and the part of Snippet::fmt_or_fallback and of fmt_snippet_window_with_mapping_or_fallback between the line table and the horizontal crop (statement fragments, the fall-back returns turned into None): the vertical window is the reported line +- 2, it starts at a line start, and the marker span handed on starts at the reported column of the reported line inside that window and covers no or one character',
